@@ -202,44 +202,38 @@ def check(ctx):
             ctx.ok(rule, f"{res['transitions']} transitions of the extracted HttpStream model")
 
     def predicate_table():
-        # R03.2a: need_error_hook predicate table, all (client_state, server_state) pairs
+        # R03.2a: in which (client_state, server_state) pairs does handle_protocol_error fire the error hook?  Decided by executing the
+        # function (helpers inlined, temporaries by value) from every pair of states for both kinds of protocol error - not by reading
+        # one particular local - so renaming / splitting / extracting the predicate does not matter.
         from ..httpstream import STATE_NAMES
-        from ..paths import Engine, State, C
+        from ..paths import Engine, State, UNKNOWN
 
         hpe = ctx.func(REL, "HttpStream.handle_protocol_error")
-        assign = [s for s in hpe.body if isinstance(s, ast.Assign) and attr_chain(s.targets[0]) == "need_error_hook"]
-        ctx.require(len(assign) == 1, "handle_protocol_error no longer computes need_error_hook in one assignment")
-        import copy
-
-        def inline_locals(e, depth=0):
-            """the predicate with single-assignment temporaries of the function replaced by their defining expressions"""
-            if depth > 6:
-                return e
-
-            class T(ast.NodeTransformer):
-                def visit_Name(self, n):
-                    if isinstance(n.ctx, ast.Load):
-                        defs = [a for a in ast.walk(hpe) if isinstance(a, (ast.Assign, ast.AnnAssign)) and a.value is not None
-                                and any(isinstance(t, ast.Name) and t.id == n.id for t in (a.targets if isinstance(a, ast.Assign) else [a.target]))]
-                        if len(defs) == 1:
-                            return inline_locals(copy.deepcopy(defs[0].value), depth + 1)
-                    return n
-
-            return ast.fix_missing_locations(T().visit(copy.deepcopy(e)))
-
-        inlined = inline_locals(assign[0].value)
+        params = [a.arg for a in hpe.args.posonlyargs + hpe.args.args if a.arg not in ("self", "cls")]
+        ctx.require(len(params) >= 1, "handle_protocol_error takes no event")
         bad = 0
+        fired_somewhere = False
         for cs in STATE_NAMES:
             for ss in STATE_NAMES:
-                st = State((), {"self.client_state": R("self." + cs), "self.server_state": R("self." + ss)})
-                t = spec.truth(inlined, st, 0)
+                env = dict(init_env())
+                env.update({"self.client_state": R("self." + cs), "self.server_state": R("self." + ss), "self.flow.response": UNKNOWN, "self.flow.websocket": UNKNOWN,
+                            "self.request_body_buf": UNKNOWN, "self.response_body_buf": UNKNOWN})
+                outcomes = set()
+                for kind in ("RequestProtocolError", "ResponseProtocolError"):
+                    eng = Engine(HttpStreamSpec(m))
+                    finals = eng.finals(hpe, State((), env), {params[0]: EV(kind)})
+                    ctx.require(finals, f"handle_protocol_error has no outcome for ({cs},{ss},{kind})")
+                    outcomes |= {any(e == ("hook", "HttpErrorHook") for e in f.trace) for f in finals}
                 ctx.cells += 1
-                ctx.require(t is not None, f"need_error_hook not decidable for ({cs},{ss}): {ast.unparse(assign[0].value)}")
+                ctx.require(len(outcomes) == 1, f"whether handle_protocol_error fires the error hook is not a function of the two states for ({cs},{ss}) (shape not modelled)")
+                fires = outcomes.pop()
+                fired_somewhere = fired_somewhere or fires
                 must_be_false = cs == "state_errored" or ss in ("state_done", "state_errored")
-                if must_be_false and t:
+                if must_be_false and fires:
                     bad += 1
-                    ctx.fail("R03.2", (REL, "HttpStream.handle_protocol_error", assign[0]), f"need_error_hook({cs},{ss})=True",
+                    ctx.fail("R03.2", (REL, "HttpStream.handle_protocol_error", hpe), f"need_error_hook({cs},{ss})=True",
                              "an error hook would fire although the flow already has an outcome")
+        ctx.require(fired_somewhere, "handle_protocol_error fires the error hook in no pair of states (anchor moved)")
         if not bad:
             ctx.ok("R03.2", f"need_error_hook table {len(STATE_NAMES) ** 2} cells")
 
